@@ -112,6 +112,23 @@ def run_link(pid: str, repo=None) -> dict:
         return fail("?", "translate", f"cannot read/parse {spec['source']}: {e}")
     res["idioms"] = gm.idioms
     gen_v.write_text(gm.text)
+
+    # 1b. fail-closed guards (translator/guards.py): class shapes, module-level effects, default arguments against the
+    #     recorded baseline translator/shapes/<id>.json — what a function body means also depends on these
+    import guards
+
+    try:
+        diffs = guards.check(spec, repo)
+    except (SyntaxError, OSError) as e:
+        return fail("?", "guard", f"cannot read the sources for the class-shape / module-effect guards: {e}")
+    if diffs:
+        kind, subject, _ = diffs[0]
+        lines = "; ".join(f"[{k}] {sub}: {t}" for k, sub, t in diffs[:6])
+        return fail(f"{kind}:{subject.split('::')[-1]}", "guard",
+                    f"{len(diffs)} difference(s) between the recorded {kind} baseline (translator/shapes/{pid.lower()}.json) and the current source — "
+                    f"the meaning of the translated functions of {pid} depends on it (==, hashing, construction, process-wide settings, defaults), "
+                    f"no link lemma covers it: {lines}"[:1800],
+                    log="\n".join(f"[{k}] {sub}: {t}" for k, sub, t in diffs))
     by_gen = {f.gen: f for f in gm.functions}
 
     # 2. the generated module must compile
